@@ -54,6 +54,7 @@ var chanOps = map[string]int{}
 // to vrt.CloseChan / vrt.RecvChan (scheduling points)
 var chanSignalFiles = map[string]bool{
 	"service/flv/httpflv.go": true,
+	"service/hls/hls.go":     true, // <-time.After(...) in the playlist handler's polling loop
 }
 
 func recvOf(s ast.Stmt) ast.Expr {
